@@ -30,6 +30,7 @@ CONSTANTS Threads,          \* handler threads
           Files,            \* file names (strings)
           FileOf,           \* [Keys -> Files \cup {"-", "/"}]   "-": the target resolves to nothing (404),
                             \*                                     "/": to a directory named without the slash (301)
+          StripSlash,       \* [Routes -> STRING]: the route without trailing slashes (used by Dev KeyStripsSlash only)
           RewriteInFlight,  \* BOOLEAN: may files change while a request is in progress?
           MaxWrites         \* bound on the recorded history per file (model checking only)
 
@@ -44,6 +45,9 @@ svars == <<entries, total, clock, last, op, files, fhist, pc, rq, resp>>
 NoResp == [status |-> 0, size |-> 0, id |-> 0, mime |-> "", cached |-> FALSE]
 NoRq   == [route |-> "", host |-> 0, t0 |-> 0, body |-> NoPayload]
 Resp(status, p, cached) == [status |-> status, size |-> p.size, id |-> p.id, mime |-> p.mime, cached |-> cached]
+
+\* the key under which static.rs caches a request: the request's uri (query string already split off)
+CacheKey(r) == IF "KeyStripsSlash" \in Dev THEN StripSlash[r] ELSE r
 
 SInit ==
   /\ Init
@@ -65,7 +69,7 @@ StartStep(th, r, h) ==
 
 CacheCheckStep(th, now) ==
   /\ pc[th] = "check"
-  /\ LET g == IF Limit > 0 THEN GetRes(entries, rq[th].route, rq[th].host, now) ELSE NoItem
+  /\ LET g == IF Limit > 0 THEN GetRes(entries, CacheKey(rq[th].route), rq[th].host, now) ELSE NoItem
      IN  /\ IF g.hit
             THEN /\ resp' = [resp EXCEPT ![th] = Resp(200, [size |-> g.size, id |-> g.id, mime |-> g.mime], TRUE)]
                  /\ pc' = [pc EXCEPT ![th] = "done"]
@@ -91,7 +95,7 @@ ReadFileStep(th) ==
 StoreStep(th, now) ==
   /\ pc[th] = "store"
   /\ LET p == rq[th].body
-         r == rq[th].route
+         r == CacheKey(rq[th].route)
          h == rq[th].host
      IN  /\ IF Limit >= p.size
             THEN LET s == SetRes(entries, total, r, h, p, now)     \* (never panics: p.size <= Limit)
@@ -160,7 +164,7 @@ Inv_Fresh ==
   \A th \in Threads :
     (pc[th] = "done" /\ resp[th].status = 200)
       => LET f == FileOf[<<rq[th].route, rq[th].host>>]
-             H == fhist[f]
+             H == IF f \in {"-", "/"} THEN <<>> ELSE fhist[f]      \* (no 200 for a target that is not a file)
          IN  \E i \in 1..Len(H) :
                 /\ H[i].p.size = resp[th].size /\ H[i].p.id = resp[th].id /\ H[i].p.mime = resp[th].mime
                 /\ (i = Len(H) \/ H[i + 1].from >= rq[th].t0 - TimeLimit)
